@@ -376,4 +376,5 @@ pub const PROP: Prop = Prop {
         "the reference is the same engine with every cache lookup forced to miss and every fill skipped, i.e. the specification path the cache shortcuts; a defect in that path itself is invisible here",
     ],
     nondeterminism_is_violation: false,
+    hang_is_violation: true,
 };
